@@ -226,6 +226,11 @@ def _oracle(kind, site, occurrence, engine, started, drive, injected, result, fa
         result.violate(rule, sig_site, f'[fault at {where}, class {kind}] {detail}', case=failing)
 
     escaped = [c for c in engine.loop.exc_contexts if _carries(c, injected)]
+    # ... and exceptions of loop tasks that nobody retrieves (asyncio reports those to the loop's handler when the task is
+    # collected): the task that steps the process is judged separately below
+    for task, exc in engine.loop.unretrieved_task_exceptions():
+        if task is not engine.task and _carries({'exception': exc}, injected):
+            escaped.append({'message': f'Task exception was never retrieved: {exc!r}', 'exception': exc})
 
     if kind == 'construct':
         if started:
